@@ -122,6 +122,10 @@ func genWrite(r *hx.Rng, run *hx.Run) writeDesc {
 		if (n == 1 && r.Chance(1, 3)) || r.Chance(1, 12) {
 			md.Name = ""
 		}
+		if len(md.Idx) >= 9 && r.Chance(1, 5) {
+			md.Mats = genMatsABA(r, len(md.Idx)/3) // one material around another one: red:2 green:1 red:3
+			run.Count("write:material-reused-around-another")
+		}
 		d.Meshes = append(d.Meshes, md)
 	}
 	switch r.Intn(6) {
@@ -666,6 +670,12 @@ func fixedWrites() []writeDesc {
 		// material ranges: several, empty, repeated, nil material
 		{Mtl: "m.mtl", Meshes: []meshDesc{{Name: "a", Idx: []int{0, 1, 2, 2, 1, 3, 0, 3, 1}, Pos: tri(4),
 			Mats: []matDesc{{1, sp("red")}, {0, sp("green")}, {1, sp("red")}, {1, nil}}}}},
+		// a material (same pointer) used by two ranges around another one: the face order must stay the mesh's
+		{Meshes: []meshDesc{{Name: "a", Idx: []int{0, 1, 2, 2, 1, 3, 0, 3, 1, 3, 2, 0, 1, 0, 3, 2, 3, 1}, Pos: tri(4),
+			Mats: []matDesc{{2, sp("red")}, {1, sp("green")}, {3, sp("red")}}}}},
+		{Mtl: "m.mtl", Meshes: []meshDesc{{Name: "a", Idx: []int{0, 1, 2, 2, 1, 3, 0, 3, 1, 3, 2, 0}, Pos: tri(4), Nrm: [][3]float64{{0, 0, 1}, {0, 1, 0}, {1, 0, 0}, {0, 0, -1}},
+			Mats: []matDesc{{1, nil}, {1, sp("red")}, {2, nil}}},
+			{Name: "b", Idx: []int{0, 1, 2, 2, 1, 3, 0, 3, 1}, Pos: tri(4), Mats: []matDesc{{1, sp("red")}, {1, sp("green")}, {1, sp("red")}}}}},
 	}
 }
 // every kind of last statement with every way of ending the text
